@@ -522,7 +522,7 @@ func (x *VC) immutableComp(key string) bool {
 // ghostComp reports components that exist only in specifications (ghost globals, spawn and
 // channel-send counters, ghost fields): real code reached through `modifies *` cannot change them.
 func (x *VC) ghostKey(key string) bool {
-	if strings.HasPrefix(key, "G|spawned:") || key == "G|chan.sent" {
+	if strings.HasPrefix(key, "G|spawned:") || key == "G|chan.sent" || key == "G|chan.recvs" || key == "G|chan.lastRecv" {
 		return true
 	}
 	if strings.HasPrefix(key, "G|") {
